@@ -108,6 +108,21 @@ for _r, _p in ((1, 1), (1, 2), (2, 1), (1, 3)):
     _ecu(_r, _p)
 
 
+@harness("C10", "Equilibrium.check_consistent_units.inactive_species_do_not_count", functions=[CH + ":Equilibrium.check_consistent_units"], kind="shape-bounded", div_mode="assume", samples=0)
+def _(v):
+    """the constant of  A + (S) = B + C  has the dimension of the ACTIVE stoichiometry: concentration^(2-1)"""
+    from chempy.chemistry import Equilibrium
+    t, u = _env(v)
+    m = v.real("K", lo=1e-9, hi=1e9)
+    for tag, ir, ip, expo in (("solvent_reactant", {"S": 1}, None, 1), ("solid_product", None, {"P(s)": 1}, 1), ("both", {"S": 2}, {"X": 1}, 1)):
+        good = Equilibrium({"A": 1}, {"B": 1, "C": 1}, m * u.molar ** expo, inact_reac=ir, inact_prod=ip, checks=())
+        v.prove(tag + ".active_dimension_accepted", bool(v.call(good.check_consistent_units)) is True)
+        net_expo = expo + (sum(ip.values()) if ip else 0) - (sum(ir.values()) if ir else 0)
+        if net_expo != expo:
+            bad = Equilibrium({"A": 1}, {"B": 1, "C": 1}, m * u.molar ** net_expo, inact_reac=ir, inact_prod=ip, checks=())
+            v.prove(tag + ".dimension_counting_inactive_species_rejected", bool(v.call(bad.check_consistent_units)) is False)
+
+
 @harness("C10", "args_dimensionality", functions=["chempy.kinetics.rates:MassAction.args_dimensionality", "chempy.kinetics.rates:Arrhenius.args_dimensionality", "chempy.kinetics.rates:Eyring.args_dimensionality",
                                                    "chempy.kinetics.rates:EyringHS.args_dimensionality", "chempy.kinetics.rates:RampedTemp.args_dimensionality", "chempy.kinetics.rates:SinTemp.args_dimensionality"],
          samples=0)
